@@ -214,9 +214,122 @@ def translate(tree):
             "  : res (option function * bool * bool) :=\n  %s.\nEnd Header.\n" % text)
 
 
+# ---------------------------------------------------------------------------------------------------------
+# from_code_data: how the flag set and the argument counts are assembled
+
+def _is_fl(t):
+    return isinstance(t, ast.Name) and t.id == "flags_data"
+
+
+def translate_encode(tree):
+    f = next((n for n in tree.body if isinstance(n, ast.FunctionDef) and n.name == "from_code_data"), None)
+    if f is None or f.decorator_list or [a.arg for a in f.args.args] != ["code_data"]:
+        raise Decline("from_code_data")
+    body = [s for s in f.body if not (isinstance(s, ast.Expr) and isinstance(s.value, ast.Constant))]
+    fl = [0]
+    lines = []
+
+    def cur():
+        return "fl%d" % fl[0]
+
+    def bump(rhs):
+        fl[0] += 1
+        lines.append("let fl%d := %s in" % (fl[0], rhs))
+
+    def union(e, fn_var=None):
+        """flags_data |= <set>"""
+        if isinstance(e, ast.Name) and e.id == "FN_FLAGS":
+            return "flags_union %s PCD.Gen.Src.FN_FLAGS" % cur()
+        if isinstance(e, ast.Set) and len(e.elts) == 1:
+            x = e.elts[0]
+            if isinstance(x, ast.Constant) and isinstance(x.value, str):
+                return "flag_add %s %s" % (flag_ctor(x.value), cur())
+            if same(x, "code_data.type.type") and fn_var:
+                return "flag_add (fntype_flag %s) %s" % (fn_var, cur())
+        raise Decline("set added to the flags")
+
+    i = 0
+    # flags_data: FlagsData = set()
+    st = body[i]
+    if not (isinstance(st, (ast.AnnAssign, ast.Assign)) and same(st.value, "set()")
+            and ast.dump(st.target if isinstance(st, ast.AnnAssign) else st.targets[0]) == ast.dump(ast.parse("flags_data = 0").body[0].targets[0])):
+        raise Decline("flags_data = set()")
+    lines.append("let fl0 := @nil flag in")
+    i += 1
+    # if isinstance(code_data.type, Function): flags_data |= FN_FLAGS ; if code_data.type.type is not None: flags_data |= {code_data.type.type}
+    st = body[i]
+    if not (isinstance(st, ast.If) and same(st.test, "isinstance(code_data.type, Function)") and not st.orelse):
+        raise Decline("function flags")
+    inner = []
+    save = fl[0]
+    for s2 in st.body:
+        if isinstance(s2, ast.AugAssign) and isinstance(s2.op, ast.BitOr) and _is_fl(s2.target):
+            inner.append(("u", s2.value))
+        elif (isinstance(s2, ast.If) and same(s2.test, "code_data.type.type is not None") and not s2.orelse and len(s2.body) == 1
+              and isinstance(s2.body[0], ast.AugAssign) and isinstance(s2.body[0].op, ast.BitOr) and _is_fl(s2.body[0].target)):
+            inner.append(("k", s2.body[0].value))
+        else:
+            raise Decline("statement in the function flags block")
+    text = cur()
+    for kind, v in inner:
+        if kind == "u":
+            text = union(v).replace(cur(), text)
+        else:
+            text = "(match fn_type f with Some t => %s | None => %s end)" % (union(v, "t").replace(cur(), "(" + text + ")"), text)
+    bump("match ty with Some f => %s | None => %s end" % (text, cur()))
+    i += 1
+    # opaque middle: blocks_to_bytes, consts, additional line
+    while i < len(body) and not (isinstance(body[i], ast.If) and same(body[i].test, "isinstance(code_data.type, Function)")):
+        st = body[i]
+        ok = (isinstance(st, ast.Assign) and isinstance(st.value, ast.Call) and isinstance(st.value.func, ast.Name)
+              and st.value.func.id in ("blocks_to_bytes", "tuple")) or \
+             (isinstance(st, ast.If) and same(st.test, "code_data._additional_line") and not st.orelse and len(st.body) == 1
+              and same(st.body[0], "line_mapping.add_additional_line(code_data._additional_line, len(code))", "exec"))
+        if not ok:
+            raise Decline("statement before the argument block: " + type(st).__name__)
+        i += 1
+    if i >= len(body):
+        raise Decline("argument block")
+    st = body[i]
+    want_then = ["args_input = args_to_input(code_data.type.args, flags_data)", "argcount = args_input.argcount",
+                 "posonlyargcount = args_input.posonlyargcount", "kwonlyargcount = args_input.kwonlyargcount",
+                 "flags_data = args_input.flags_data"]
+    then = [s2 for s2 in st.body]
+    if not (len(then) == 6 and all(same(a, b, "exec") for a, b in zip(then[:5], want_then)) and isinstance(then[5], ast.Assert)
+            and same(then[5].test, "varnames[:len(args_input.varnames)] == args_input.varnames")):
+        raise Decline("then-branch of the argument block")
+    want_else = ["argcount = 0", "posonlyargcount = 0", "kwonlyargcount = 0"]
+    if not (len(st.orelse) == 3 and all(same(a, b, "exec") for a, b in zip(st.orelse, want_else))):
+        raise Decline("else-branch of the argument block")
+    prev = cur()
+    fl[0] += 1
+    lines.append("bind (match ty with\n    | Some f => let '(ac, pc, kc, vn, fl) := PCD.Gen.SrcArgs.Args.args_to_input (fn_args f) %s in\n"
+                 "        if list_eqb str_eqb (take (zlen vn) varnames) vn then OK (ac, pc, kc, fl) else Err AssertionError\n"
+                 "    | None => OK (0, 0, 0, %s)\n    end) (fun '(argcount, posonly, kwonly, fl%d) =>" % (prev, prev, fl[0]))
+    i += 1
+    # freevars = code_data.freevars
+    if not same(body[i], "freevars = code_data.freevars", "exec"):
+        raise Decline("freevars binding")
+    i += 1
+    for test, want_set, param in (("not freevars and not cellvars", None, "(freevars_empty && cellvars_empty)"),
+                                  ("code_data.future_annotations", None, "future_annotations"), ("code_data._nested", None, "nested")):
+        st = body[i]
+        if not (isinstance(st, ast.If) and same(st.test, test) and not st.orelse and len(st.body) == 1
+                and isinstance(st.body[0], ast.AugAssign) and isinstance(st.body[0].op, ast.BitOr) and _is_fl(st.body[0].target)):
+            raise Decline("flag statement: " + test)
+        bump("if %s then %s else %s" % (param, union(st.body[0].value), cur()))
+        i += 1
+    if not same(body[i], "flags = from_flags_data(flags_data)", "exec"):
+        raise Decline("flags = from_flags_data(flags_data)")
+    text = "\n  ".join(lines) + "\n  OK (argcount, posonly, kwonly, %s))" % cur()
+    return ("Module EncodeHeader.\n"
+            "Definition header (ty : option function) (varnames : list str) (freevars_empty cellvars_empty future_annotations nested : bool)\n"
+            "  : res (Z * Z * Z * list flag) :=\n  %s.\nEnd EncodeHeader.\n" % text)
+
+
 HEADER = ("(* generated by harness/translate_header.py from /repo/code_data/_code_data.py on every run; do not edit *)\n"
           "From PCD Require Import Base.PyBase Base.Cfg Model.Flags Model.Args Model.Data Model.Consts.\n"
-          "From PCD Require Gen.Src Model.CodeData.\n\n")
+          "From PCD Require Gen.Src Gen.SrcArgs Model.CodeData.\nImport PCD.Model.CodeData.\n\n")
 
 
 def generate(repo, outpath, fallback_dir, write_fallback=False):
@@ -227,7 +340,7 @@ def generate(repo, outpath, fallback_dir, write_fallback=False):
     try:
         with open(os.path.join(repo, "code_data", "_code_data.py")) as f:
             tree = ast.parse(f.read())
-        text = translate(tree)
+        text = translate(tree) + translate_encode(tree)
         notes["header"] = "translated"
         flag = "true"
         if write_fallback:
